@@ -202,6 +202,9 @@ type familySpec struct {
 	Ref      func(db map[string]AVal, args []string, now int64) *refExp
 	Title    string
 	ExtraCmd func() []Action
+	// Deep: a small focused alphabet (a dozen commands on the keys of the universe) explored to depth 4/5 from the seeded
+	// universe: defects that need a listing, two compensating writes and another listing, or similar chains
+	Deep []Action
 	// LooseDeadlines: whether a key that the command REPLACES (STORE destinations, HSET over another type) keeps or
 	// loses the deadline it had is not specified for this family: both are accepted.
 	LooseDeadlines bool
@@ -257,16 +260,25 @@ func (f familyCheck) Units(tier string, seed int64) []Unit {
 		add(1, 3, 48, "tiny")
 		add(2, 1, 8, "full")
 		add(2, 2, 24, "tiny")
+		if len(f.spec.Deep) > 0 {
+			add(0, 5, len(f.spec.Deep), "deep")
+		}
 	} else {
 		add(0, 1, 8, "full")
 		add(0, 2, 24, "tiny")
 		add(1, 2, 8, "tiny")
 		add(2, 1, 8, "small")
+		if len(f.spec.Deep) > 0 {
+			add(0, 4, len(f.spec.Deep), "deep")
+		}
 	}
 	return us
 }
 
 func (f familyCheck) alphabet(dom string) []Action {
+	if dom == "deep" {
+		return f.spec.Deep
+	}
 	d := fullDomains
 	switch dom {
 	case "small":
@@ -332,7 +344,11 @@ func (f familyCheck) Run(u Unit, w *Worker) UnitResult {
 		exp := sp.Ref(pre.Alpha[0], act.A, pre.NowMs)
 		if exp == nil {
 			res.Stats["undefined_by_reference"]++
-			return nil
+			// not judged by the reference - but a command that answers with an error must still have changed nothing
+			if out.V.IsErr() && dbKey(normText(normEmpty(post.Alpha[0]))) != dbKey(normText(normEmpty(pre.Alpha[0]))) {
+				add("state-changed-by-failing-or-reading-command", fmt.Sprintf("the command failed but the dataset changed to %s", firstN(dbKey(normText(normEmpty(post.Alpha[0]))), 300)))
+			}
+			return fs
 		}
 		res.Stats["conformance_checks"]++
 		if exp.random {
